@@ -8,10 +8,12 @@
 package engnode
 
 import (
+	"bytes"
 	"context"
 	"errors"
 	"fmt"
 	"sync"
+	"sync/atomic"
 	"time"
 
 	clock "github.com/jonboulle/clockwork"
@@ -62,9 +64,22 @@ type World struct {
 	H      *beacon.Handler
 	Log    log.Logger
 
+	declines int64 // signatures the node declined because the round's time had not come (read atomically)
+
 	ref map[uint64]*common.Beacon // the reference chain (BLS is deterministic)
 	dir string
 }
+
+// declineSink counts the "not signing a round ahead of the clock" warnings of the node under test.
+type declineSink struct{ w *World }
+
+func (d *declineSink) Write(p []byte) (int, error) {
+	if bytes.Contains(p, []byte("not signing a round ahead of the clock")) {
+		atomic.AddInt64(&d.w.declines, 1)
+	}
+	return len(p), nil
+}
+func (d *declineSink) Sync() error { return nil }
 
 type discardSync struct{}
 
@@ -205,7 +220,9 @@ func deal(sch *crypto.Scheme, secret kyber.Scalar, n, thr int) ([]*key.Share, *s
 // vacant: share indices of epoch 0 that no group member holds (n members + len(vacant) dealt indices).
 func NewWorld(sch *crypto.Scheme, n, thr, me int, period, genesis, now int64, storeKind string, vacant ...int) (*World, error) {
 	w := &World{Sch: sch, Period: period, Genesis: genesis, Me: me, ref: map[uint64]*common.Beacon{}}
-	w.Log = log.New(discardSync{}, log.ErrorLevel, false)
+	// warnings are read, not kept: the guard of broadcastNextPartial announces a declined signature
+	// there, which is the only trace a tick handled without a broadcast leaves
+	w.Log = log.New(&declineSink{w: w}, log.WarnLevel, false)
 	w.Secret = sch.KeyGroup.Scalar().Pick(random.New())
 	w.Me = me
 	ep, err := w.newEpoch(n, thr, 0, vacant)
